@@ -740,10 +740,17 @@ def eval_sys_random_number():
 def _read_data_object(klong, a):
     """
     The parser reads a dictionary :{...} as a call of the dictionary
-    constructor. .r and .rs read data, so build the dictionary here.
+    constructor. .r and .rs read data, so build the dictionaries here,
+    also those inside lists and inside other dictionaries.
     """
     if isinstance(a, KGCall) and a.a is copy_lambda:
-        return klong.eval(a)
+        return {k: _read_data_object(klong, v) for k, v in a.args.items()}
+    if isinstance(a, list):
+        return [_read_data_object(klong, x) for x in a]
+    if isinstance(a, numpy.ndarray) and a.dtype == object:
+        flat = a.reshape(-1)
+        for j in range(flat.size):
+            flat[j] = _read_data_object(klong, flat[j])
     return a
 
 
